@@ -582,11 +582,12 @@ R.contract("Node.route_request", params={"self": "Node", "app": "Application", "
                     ("hop-by-hop-nonzero", "message.header.hop_by_hop_identifier != 0"),
                     ("keeps-a-given-hop-by-hop", "implies(old(message.header.hop_by_hop_identifier) != 0, "
                                                  "message.header.hop_by_hop_identifier == old(message.header.hop_by_hop_identifier))"),
-                    ("answer-correlation-recorded", "self._app_waiting_answer[mkey(message)] == app and result[1] == message")],
+                    ("answer-correlation-recorded", "mkey(message) in self._app_waiting_answer and "
+                                                    "self._app_waiting_answer[mkey(message)] == app and result[1] == message")],
            raises=[Raise("NotRoutable", "not (rq_list_known(self, app, message) and p in rq_list(self, app, message) and ready_peer(p))", "only_if")],
            ghost_modifies=["self.g_sel_offer"],
            modifies=["message.header.hop_by_hop_identifier", "*SequenceGenerator._sequence", "dict:self._app_waiting_answer"],
-           props=["C10", "C16"],
+           props=["C10", "C16", "C06"],
            note="p is an arbitrary witness peer: NotRoutable only if p is not an eligible ready peer (so: raised only when no "
                 "eligible peer exists); on NotRoutable the frame shows that no table changed and nothing was queued")
 R.loop("Node.route_request", 0,
@@ -633,7 +634,10 @@ R.contract("Application.send_request", params={"self": "Application", "message":
            ensures=[("waiter-released", "not (message.header.hop_by_hop_identifier in self._answer_waiting)"),
                     ("ids-set", "message.header.hop_by_hop_identifier != 0 and message.header.end_to_end_identifier != 0")],
            raises=[Raise("NotRoutable", "True", "may"), Raise("TimeoutError", "True", "may"), Raise("EmptyAnswer", "True", "may")],
-           ensures_exc={"TimeoutError": [("waiter-released", "not (message.header.hop_by_hop_identifier in self._answer_waiting)")],
+           ensures_exc={"TimeoutError": [("waiter-released", "not (message.header.hop_by_hop_identifier in self._answer_waiting)"),
+                                         ("a-late-answer-can-still-be-attributed-to-the-sender",
+                                          "mkey(message) in some(self._node)._app_waiting_answer and "
+                                          "some(self._node)._app_waiting_answer[mkey(message)] == self")],
                         "EmptyAnswer": [("waiter-released", "not (message.header.hop_by_hop_identifier in self._answer_waiting)")],
                         "NotRoutable": [("no-waiter-registered", "unchanged(self._answer_waiting)")]},
            ghost_modifies=["*MsgQueue.g_put", "some(self._node).g_sel_offer"],
